@@ -332,7 +332,10 @@ def inline_new_helpers(facts, known):
     known_c = set(canon_generics(k) for k in known)
     # a function that carries the name of a known one (a helper moved to another impl, a trait method turned into a
     # free function) is that helper in another place, not an extraction: it stays a call
-    known_last = set(k.rsplit("::", 1)[-1] for k in known_c)
+    # (only a known function that is *gone* can have moved: a new function that merely shares its last name with
+    # functions that are all still in place is an extraction like any other)
+    cur_c = set(canon_generics(p) for p in by_path)
+    known_last = set(k.rsplit("::", 1)[-1] for k in known_c if k not in cur_c)
     new = {p: bs[0] for p, bs in by_path.items() if p not in known and canon_generics(p) not in known_c and len(bs) == 1 and canon_generics(p).rsplit("::", 1)[-1] not in known_last}
     if not new:
         return 0
